@@ -348,7 +348,7 @@ theorem options_last_keeps (xs : List String) (s : String) (acc m' m : Kids) (p 
   exact assign_keeps m' p q v hq hpq
 
 /-- a malformed option anywhere refuses the whole command line, and nothing else does -/
-theorem foldOptions_error_iff (xs : List String) (acc : Kids) :
+theorem foldOptions_refused_iff (xs : List String) (acc : Kids) :
     (∃ e, foldOptions xs acc = .error e) ↔ ∃ s ∈ xs, ∃ e, parseOption s = .error e := by
   induction xs generalizing acc with
   | nil => simp [foldOptions]
